@@ -66,6 +66,16 @@ pub mod verif {
     pub use crate::packet::{ChallengeToken, Packet};
     pub use crate::replay_protection::ReplayProtection;
 
+    /// Canonical text of a socket address used by the state dumps and the harness line protocol:
+    /// `4:<8 hex digits>:<port>` or `6:<32 hex digits>:<port>` (flow info and scope id are not shown).
+    pub fn addr_text(addr: &SocketAddr) -> String {
+        let hex = |b: &[u8]| -> String { b.iter().map(|x| format!("{:02x}", x)).collect() };
+        match addr {
+            SocketAddr::V4(a) => format!("4:{}:{}", hex(&a.ip().octets()), a.port()),
+            SocketAddr::V6(a) => format!("6:{}:{}", hex(&a.ip().octets()), a.port()),
+        }
+    }
+
     /// Fields of a private connect token: client id, timeout, addresses, client-to-server key,
     /// server-to-client key, user data.
     pub type PrivateFields = (u64, i32, Vec<Option<SocketAddr>>, [u8; 32], [u8; 32], [u8; 256]);
